@@ -17,7 +17,11 @@ RULE = (
     "in varying order; lowered with the real compiler; extracted from the Hugr: the chain of tket.modifier ops between "
     "LoadFunc and CallIndirect (names, control arities, which function parameter feeds each power), the source parameters "
     "of every CallIndirect input, the destination of every CallIndirect output, the calls inside the __WithBlock__ "
-    "function and which outer variable reaches each of their arguments.  thorough: additionally every modifier list of "
+    "function and which outer variable reaches each of their arguments; every CallIndirect input list is compared with its "
+    "function value's type and every FuncDefn's yielded outputs with its declaration.  A second family captures affine "
+    "values (array[int,3], a struct with an array field, Option[array]) as borrowed / owned parameters or locals, used once, "
+    "reused after the block (second with block or plain call), captured through nested with blocks, two at once: must be "
+    "accepted, lower, and be well-typed; sizes of call inputs/outputs compared with the model.  thorough: additionally every modifier list of "
     "length <= 4 over {dagger, power(p0), power(p1), control(c0), control(c1,c2), control(ca)} with distinct controls.  "
     "non-trivial = at least 2 modifiers of at least 2 kinds, or a repeated kind."
 )
@@ -280,8 +284,179 @@ def extract(h):
                 vs.append(outer[1] if outer[0] == "cap" else "?ctrl")
             body_calls.append((tgt, vs))
     wfn_outs_of_test = None
-    return {"chain": chain, "args": args, "outs": outs, "body": body_calls,
+    return {"chain": chain, "args": args, "outs": outs, "body": body_calls, "typing": typing_problems(h)[0],
             "outer_body_calls": [c for c in h.children(block) if isinstance(h[c].op, ops.Call)]}
+
+
+# ------------------------------------------------------------------ affine captures (non-copyable but droppable values)
+AFF_TY = {
+    "arr": ("array[int, 3]", "array(1, 2, 3)"),
+    "st": ("S", "S(array(1, 2, 3), 7)"),
+    "opt": ("Option[array[int, 3]]", "some(array(1, 2, 3))"),
+}
+AFF_SRC = ["borrowed", "owned", "local"]
+AFF_ROLE = ["once", "reuse_with", "reuse_call", "nested", "nested_reuse", "two_affine"]
+AFF_MODS = [["control(c)"], ["dagger"], ["power(n)"], ["control(c)", "dagger"], ["dagger", "power(n)", "control(c)"],
+            ["control(c, d)"], ["dagger", "dagger"]]
+
+
+def affine_source(case):
+    ty, src, role, m1, m2 = case["affine"]
+    T, ctor = AFF_TY[ty]
+    decl = (
+        "@guppy.struct\nclass S:\n    xs: array[int, 3]\n    k: int\n"
+        f"@guppy.declare(unitary=True)\ndef t_rot(xs: {T}, q: qubit) -> None: ...\n"
+        f"@guppy.declare(unitary=True)\ndef t_rot2(q: qubit, xs: {T}, k: int, ys: {T}) -> None: ...\n"
+        "@guppy.declare(unitary=True)\ndef rot(q: qubit, k: int) -> None: ...\n"
+    )
+    params = ["c: qubit", "d: qubit", "e: qubit", "f: qubit", "q: qubit", "n: nat", "k: int"]
+    body = []
+    if src == "borrowed":
+        params += [f"xs: {T}", f"ys: {T}"]
+    elif src == "owned":
+        params += [f"xs: {T} @owned", f"ys: {T} @owned"]
+    else:
+        body += [f"    xs = {ctor}", f"    ys = {ctor}"]
+    w1 = "    with " + ", ".join(AFF_MODS[m1]) + ":"
+    w2 = "    with " + ", ".join(x.replace("(c, d)", "(e, f)").replace("(c)", "(e)") for x in AFF_MODS[m2]) + ":"
+    if role == "once":
+        body += [w1, "        t_rot(xs, q)", "        rot(q, k)"]
+    elif role == "reuse_with":
+        body += [w1, "        t_rot(xs, q)", w2, "        rot(q, k)", "        t_rot(xs, q)"]
+    elif role == "reuse_call":
+        body += [w1, "        t_rot(xs, q)", "    t_rot(xs, q)"]
+    elif role == "nested":
+        body += [w1, "    " + w2, "            t_rot(xs, q)"]
+    elif role == "nested_reuse":
+        body += [w1, "    " + w2, "            t_rot(xs, q)", "        t_rot(xs, q)", "    t_rot(xs, q)"]
+    else:
+        body += [w1, "        t_rot2(q, xs, k, ys)", "    t_rot(ys, q)"]
+    return decl + f"@guppy\ndef test({', '.join(params)}) -> None:\n" + "\n".join(body) + "\n"
+
+
+def affine_blocks(case):
+    """number of `with` blocks of an affine-family program"""
+    return {"once": 1, "reuse_with": 2, "reuse_call": 1, "nested": 2, "nested_reuse": 2, "two_affine": 1}[case["affine"][2]]
+
+
+def typing_problems(h):
+    """generic well-typedness of what compile_modified_block builds: every CallIndirect is fed what its function value
+    expects, and every FuncDefn yields what it declares"""
+    import hugr.ops as ops
+    import hugr.tys as ht
+
+    bad, shapes = [], []
+    for node in h:
+        op = h[node].op
+        if isinstance(op, ops.CallIndirect):
+            ins = {}
+            for i in range(h.num_in_ports(node)):
+                for q in h.linked_ports(node.inp(i)):
+                    ins[i] = h.port_type(q)
+            fn_ty = ins.get(0)
+            if not isinstance(fn_ty, ht.FunctionType):
+                bad.append(f"CallIndirect {node}: function input has type {fn_ty}")
+                continue
+            actual = [ins[i] for i in range(1, len(ins))]
+            if actual != list(fn_ty.input):
+                bad.append(f"CallIndirect {node} is fed [{', '.join(map(str, actual))}] but its function value expects "
+                           f"[{', '.join(map(str, fn_ty.input))}]")
+            shapes.append((len(fn_ty.input), len(fn_ty.output)))
+        elif isinstance(op, ops.Output) and isinstance(h[h[node].parent].op, ops.FuncDefn):
+            pop = h[h[node].parent].op
+            declared = list(pop.signature.body.output)
+            actual = {}
+            for i in range(h.num_in_ports(node)):
+                for q in h.linked_ports(node.inp(i)):
+                    actual[i] = h.port_type(q)
+            actual = [actual[i] for i in sorted(actual)]
+            if actual != declared:
+                bad.append(f"function `{pop.f_name}` declares outputs [{', '.join(map(str, declared))}] but its body yields "
+                           f"[{', '.join(map(str, actual))}]")
+    return bad, sorted(shapes)
+
+
+def run_affine(case):
+    """-> (verdict string, problems, shapes, captured-per-block, src)"""
+    global _enabled
+    import feed
+    import guppylang
+
+    if not _enabled:
+        guppylang.enable_experimental_features()
+        _enabled = True
+    src = affine_source(case)
+    prelude = feed.PRELUDE + "from guppylang.std.quantum import qubit\nfrom guppylang.std.option import Option, some\n"
+    m = feed.load(src, prelude=prelude)
+    try:
+        kind, exc = feed.check_outcome(m.test)
+        if kind != "ok":
+            return f"{kind}:{feed.err_class(exc)}", [], [], [], src
+        try:
+            g = feed.lower(m.test)
+        except BaseException as e:  # noqa: BLE001
+            return f"lower-failed:{type(e).__name__}: {str(e)[:200]}", [], [], [], src
+        from guppylang_internals.engine import ENGINE
+        from guppylang_internals.nodes import CheckedModifiedBlock
+
+        blocks = []
+
+        def walk(cfg):
+            for bb in cfg.bbs:
+                for st in bb.statements:
+                    if isinstance(st, CheckedModifiedBlock):
+                        ncontrol = len(st.control)
+                        blocks.append((ncontrol, [(name, bool(v.ty.copyable)) for name, (v, _) in st.captured.items()]))
+                        walk(st.cfg)
+
+        walk(ENGINE.checked[m.test.id].cfg)
+        bad, shapes = typing_problems(g.hugr)
+        return "ok", bad, shapes, blocks, src
+    finally:
+        feed.unload(m)
+
+
+def affine_cases(ctx):
+    import itertools
+
+    allc = [{"affine": [ty, src, role, m1, m2]} for ty, src, role in itertools.product(AFF_TY, AFF_SRC, AFF_ROLE)
+            for m1 in range(len(AFF_MODS)) for m2 in range(len(AFF_MODS))]
+    if ctx.quick:
+        base = [{"affine": [ty, src, role, 0, 1]} for ty, src, role in itertools.product(AFF_TY, AFF_SRC, AFF_ROLE)]
+        return base + ctx.rng.sample(allc, 30)
+    return [c for c in allc if c["affine"][3] in (0, 3, 4) or c["affine"][4] in (1, 2)]
+
+
+def tie_affine(ctx, cs):
+    # model: number of values passed to / handed back by each block's indirect call
+    results = [run_affine(c) for c in cs]
+    lines, owner = [], []
+    for i, (verdict, bad, shapes, blocks, src) in enumerate(results):
+        for ncontrol, caps in blocks:
+            mods = " ".join(f"(c {j} 1)" for j in range(ncontrol))
+            vs = " ".join(f"({j} {int(cp)})" for j, (_, cp) in enumerate(caps))
+            lines.append(f"(call ({mods}) ({vs}))")
+            owner.append(i)
+    replies = ctx.driver(DRIVER, lines) if lines else []
+    model_shapes = {}
+    for i, rep in zip(owner, replies):
+        a, o = (rep.split("|") + [""])[:2]
+        model_shapes.setdefault(i, []).append((len(a.split()), len(o.split())))
+    for i, (c, (verdict, bad, shapes, blocks, src)) in enumerate(zip(cs, results)):
+        key = "affine:" + json.dumps(c["affine"])
+        ctx.count(key, nontrivial=True, kind="affine:" + c["affine"][1] + ":" + c["affine"][2])
+        replay = {"case": c, "source": src, "verdict": verdict, "problems": bad}
+        # oracle: these programs are well-formed (affine values may be captured, used again and dropped), so they must be
+        # accepted, lower, and lower to well-typed calls
+        if verdict != "ok":
+            ctx.violation(key, f"a with block capturing a non-copyable droppable value is not compiled: {verdict}\n{src}", replay)
+            continue
+        if bad:
+            ctx.violation(key, "lowered with block is ill-typed: " + "; ".join(bad) + "\n" + src, replay)
+        if len(blocks) != affine_blocks(c) or len(shapes) != affine_blocks(c):
+            ctx.violation(key, f"expected {affine_blocks(c)} modified blocks, found {len(blocks)} checked / {len(shapes)} CallIndirect\n{src}", replay)
+        if sorted(model_shapes.get(i, [])) != shapes:
+            ctx.broke(f"correspondence callArgs/handBack sizes: model={sorted(model_shapes.get(i, []))} real={shapes}\n{src}")
 
 
 # ------------------------------------------------------------------ generator
@@ -345,7 +520,7 @@ def cases(ctx):
         for fn in sorted(os.listdir(corpus)):
             for r in json.load(open(os.path.join(corpus, fn))):
                 out.append(_norm(r))
-    if ctx.replay_in:
+    if ctx.replay_in and "mods" in ctx.replay_in["replay"].get("case", {}):
         out.append(_norm(ctx.replay_in["replay"]["case"]))
     if not ctx.quick:
         ss = [_norm(c) for c in small_scope()]
@@ -362,6 +537,10 @@ def show_chain(ch):
 
 
 def tie(ctx):
+    acs = affine_cases(ctx)
+    if ctx.replay_in and "affine" in ctx.replay_in["replay"].get("case", {}):
+        acs.append(ctx.replay_in["replay"]["case"])
+    tie_affine(ctx, acs)
     cs = cases(ctx)
     # the model needs the captured-variable order the checker produced (an input of the compiler); the real lowering
     # is therefore run first
@@ -390,6 +569,8 @@ def tie(ctx):
             ctx.violation(key, f"lowering / extraction failed on a well-formed modifier block: {err}\n{src}", dict(replay, error=err))
             continue
         chain = ex["chain"]
+        if ex.get("typing"):
+            ctx.violation(key, "lowered with block is ill-typed: " + "; ".join(ex["typing"]) + "\n" + src, dict(replay, problems=ex["typing"]))
         replay["real_chain"] = show_chain(chain)
         replay["real_args"] = [list(map(str, a)) for a in ex["args"]]
         # ---------------- oracle (independent of the model): projections of the source
